@@ -71,7 +71,9 @@ VerdictEl ==
 \cup Viol("ELEMENTS_INCLINATION_CONTINUOUS", Le(Abs(Sub(Ev.i1, Ev.i0)), Dec(2, 1)))
 
 Verdict == CASE Ev.k = "pe" -> VerdictPe [] Ev.k = "pl" -> VerdictPl [] Ev.k = "rt" -> VerdictRt [] Ev.k = "pm" -> VerdictPm
-             [] Ev.k = "nc" -> VerdictNc [] Ev.k = "el" -> VerdictEl [] Ev.k = "el3" -> VerdictEl3 [] OTHER -> {"UNKNOWN_KIND"}
+             [] Ev.k = "nc" -> VerdictNc [] Ev.k = "el" -> VerdictEl [] Ev.k = "el3" -> VerdictEl3
+             [] Ev.k = "raise" -> {"PRECESSION_TOTAL"}        \* a reduction of a legal direction between legal epochs raised
+             [] OTHER -> {"UNKNOWN_KIND"}
 Init == TraceInit(0)
 Next == StepWith(Verdict, 0)
 Spec == Init /\ [][Next]_<<l, st>>
